@@ -15,53 +15,53 @@ CHECKS = {
         engine='svm+model', technique='differential runtime monitoring: committed SVM event stream of real compiler output vs reference interpreter (M-DIFF) on generated programs',
         text='Exploration: held on every generated sequential program x args x word size {2,3,4,8} x generous/tight stack that '
              'was executed (hundreds per quick run, thousands per thorough run), plus the 40 sequential upstream expectations. '
-             'Enumerated idiom grids (scoping, operand survival, value capture for every scalar type, narrowing, coinciding tables, fresh literals, entry-point signatures) run on every quick run. '
+             'Enumerated idiom grids (scoping, operand survival, value capture for every scalar type, narrowing, coinciding tables, fresh literals, entry-point signatures, const locals shadowing const globals) and the scale grids (1-257 locals, 1-65 parameters, 4-40 entry parameters, arrays of 7-1000 elements, 9-111 labels, nesting depth 3-10, 10-257 globals) run on every quick run, also at word sizes of 5, 6, 7, 12 and 16 bytes in rotation. '
              'Decided by observing executions of the real emitted assembly; says nothing about program shapes the generator cannot build.',
         note=ISA + '; ' + MODEL, ref='6 (C01), 3, 4'),
     'C02': dict(
         engine='svm+model', technique='differential runtime monitoring: committed SVM event stream vs replay-DFS reference interpreter (M-DIFF) on generated try-block histories; M-BAL at stop handlers',
         text='Exploration: held on every generated history of try/undo/stop blocks, preempts (try bodies and defeat functions), '
              '?? and protected returns that was executed (word sizes 2,3,4, checked and unchecked), plus the 12 time-travel upstream '
-             'expectations. Enumerated grids: ?? operand kinds x positions, preempt placement / return expressions, all ordered pairs of try blocks by kind and defeat source, try-in-loop exit routes. Bounded by the replay budget (3000 replays per run) and the program shapes of the generator.',
+             'expectations. Enumerated grids: ?? operand kinds (int, bool, byte) x positions (values, conditions, first statement of a function), 9-34 try blocks in a row, preempt placement / return expressions, all ordered pairs of try blocks by kind and defeat source, try-in-loop exit routes. Bounded by the replay budget (3000 replays per run) and the program shapes of the generator.',
         note=ISA + '; ' + MODEL + '; source-level time-travel model of DESIGN.md 3.2', ref='6 (C02), 3.2'),
     'C03': dict(
         engine='svm', technique='runtime monitor M-HALT on the SVM: a halt executed with an empty choice stack (committed halt), traps, events after a terminal flag',
         text='Exploration: no committed halt on any executed run of the defeat-placement enumeration (24 constructs x 7 wrappers x 2 try kinds x '
              '4 exit routes x 3 following tries, 6 inputs), of random sequential/time-travel programs at word sizes 2,3,4 (checked, and unchecked '
-             'when fault-free) and of examples/*.hid. Also exit-shape programs followed by a never-called defeat function and every library routine on empty/long operands. No reference model is involved.',
+             'when fault-free) and of examples/*.hid. Also exit-shape programs followed by a never-called defeat function, every library routine on empty/long operands, and the ?? grids on int/bool/byte operands in every position. No reference model is involved.',
         note=ISA, ref='6 (C03), 2.2'),
     'C15': dict(
         engine='svm', technique='build-vs-build differential monitoring on the SVM: checked and unchecked timelines of the same program; guard-site execution counter',
         text='Exploration: for every generated program/input/word size whose checked run carried no fault flag, the unchecked build produced the '
-             'identical committed timeline and executed no guard site. A third of the pairs and all memory templates are compared again at the smallest stacks at which the checked build explores no fault on any timeline; a program whose checked build runs fault-free must have an unchecked build. No reference model is involved.',
+             'identical committed timeline and executed no guard site. A third of the pairs and all memory templates are compared again at the smallest stacks at which the checked build explores no fault on any timeline; a program whose checked build runs fault-free must have an unchecked build. No reference model is involved. The value-capture idioms (stores through a global index that the right-hand side changes) and the scale grids are compiled in both builds.',
         note=ISA, ref='6 (C15)'),
     'C18': dict(
         engine='svm+model', technique='metamorphic runtime monitoring: byte-identity of emitted assembly across processes/hash seeds; SVM timeline identity across stack sizes, word sizes and --lint',
         text='Exploration: byte-identical output for every (source, options) compiled twice in-process and under 6 hash seeds in fresh interpreters; '
              'identical timelines on a stack ladder above the first non-overflowing size and at word sizes 2,3,4,8 when the model saw no value leave '
-             '16 bits; --lint rejected or left the code unchanged. Two of the fresh interpreters run under python -O and -OO; an enumerated lint grid (non-falling-through statement x dead statement x place).',
+             '16 bits; --lint rejected or left the code unchanged. Two of the fresh interpreters run under python -O and -OO; an enumerated lint grid (non-falling-through statement x dead statement x place). Array/table/nesting idioms run at every word size incl. 5, 6, 7, 12, 16 bytes; the stack sweep reaches the largest stack the compiler accepts (entry points with 4-40 parameters) and an overflow above a sufficient size is a violation; the CLI is compared with the library for -m 16..64 incl. 40, 48 and -s 0..16379.',
         note=ISA + '; the premise "values fit 16 bits" is decided by RefInt', ref='6 (C18)'),
     'C04': dict(
         engine='svm', technique='sanitizer-style runtime monitor M-SAN (shadow classification of every load/store against live ap/fp and allocated array extents) under a stack-size sweep; prefix-or-overflow outcome rule',
         text='Exploration: no M-SAN report, trap or silent deviation on any executed (program, args, word, stack) of the memory-stress templates and random '
              'memory/time-travel programs, swept over every stack size within 6 words of the smallest size that reproduces the generous-stack outcome '
-             '(found by binary search) plus a ladder. A clean sanitizer run is not memory safety: only accesses the workload reached are judged.',
+             '(found by binary search) plus a ladder; constant array lengths at the boundaries of the size arithmetic of word sizes 2, 3, 4, 8; scale grids (up to 257 locals, 65 parameters, 1000 elements, depth 10) and idiom grids at word sizes 2-16 bytes. A clean sanitizer run is not memory safety: only accesses the workload reached are judged.',
         note=ISA + '; M-SAN entitlement rules of DESIGN.md section 4 (calibrated silent on 26k accesses of the upstream programs)', ref='6 (C04), 4'),
     'C05': dict(
         engine='svm+model', technique='differential runtime monitoring (M-DIFF vs reference interpreter that raises the same faults) on a boundary grid; M-END terminal-state monitor',
         text='Exploration with an exhaustively enumerated grid: every faulting operator x element type x storage class x access form with ~19 index values, '
              '60 dividend/divisor pairs and 18 VLA lengths at word sizes 2,3,4 produced exactly prefix + [flag kind, flag error] (or no fault) as the '
-             'model predicts; literal indices, divisors and lengths; return expressions calling defeat functions; returns inside taken preempt blocks; narrowing casts as indices; plus random hostile programs and time-travel programs (nonlocal_preempt).',
+             'model predicts; literal indices, divisors (incl. literals that are zero only on the target: 2^bits, -2^bits, 3*2^bits) and lengths; return expressions calling defeat functions; returns inside taken preempt blocks; narrowing casts as indices; plus random hostile programs and time-travel programs (nonlocal_preempt).',
         note=ISA + '; ' + MODEL, ref='6 (C05)'),
     'C08': dict(
         engine='svm', technique='runtime invariant monitor M-BAL ((fp,ap) per activation at loop heads/exits, call returns, stop-handler restore), M-SAN use-after-release, peak-ap twin comparison',
         text='Exploration: no balance violation on any executed run of the scope-exit enumeration (8 array kinds x 11 exit routes x for/while x 5 nesting '
-             'shapes x 4 try placements, n = 1,2,7 iterations; peak ap equal for n=3 and n=40) nor on random memory/time-travel programs.',
+             'shapes x 4 try placements, n = 1,2,7 iterations; peak ap equal for n=3 and n=40) nor on random memory/time-travel programs, nor on the scale grids (nesting depth 3-10 x 4 exit routes, 9-34 try blocks, 9-111 loops, locals spread over nested blocks; both builds). Shapes include a try/stop next to calls of you-functions with their own try/stop.',
         note=ISA + '; observation points are compiler-emitted labels', ref='6 (C08), 4'),
     'C16': dict(
         engine='svm+model', technique='runtime monitor M-FALL (sequential pc crossing a function boundary) on the SVM + reference interpreter observing fall-off-the-end and dropped statements (M-DIFF)',
         text='Exploration: for every generated function body (all flavours, both return kinds) accepted by hidc, no run on inputs 0..5 (word sizes 2,3; checked and '
-             'unchecked) crossed a function boundary sequentially, reached the end of a value-returning body in the model, or differed from the model. Includes the enumerated loop-exit grid (392 programs) and 56 return-path shapes (open ones must be rejected).',
+             'unchecked) crossed a function boundary sequentially, reached the end of a value-returning body in the model, or differed from the model. Includes the enumerated loop-exit grid (392 programs) and 56 return-path shapes (open ones must be rejected). Loop-exit shapes include exits of the outer loop before, between and after nested loops in bodies that cannot complete.',
         note=ISA + '; ' + MODEL, ref='6 (C16)'),
     'C06': dict(
         engine='model', technique='runtime observation of accept/reject of the real parser+typechecker on enumerated placements vs an independent context checker',
@@ -71,12 +71,12 @@ CHECKS = {
     'C07': dict(
         engine='svm+model', technique='runtime observation of accept/reject + code generation on rule x position enumerations vs an independent implementation of the documented typing rules; overload tags observed on the SVM',
         text='Exploration with exhaustively enumerated rule tables: 60 providers x 12 target types x 8 positions, operator/cast/??/index operand typing, 125 single-rule '
-             'ill-typing mutations, random overload sets whose selected overload is observed in the output of the compiled program. 43 return-path shapes; 3808 provider/position pairs under no-op spellings must get the same verdict.',
+             'ill-typing mutations, random overload sets whose selected overload is observed in the output of the compiled program. 43 return-path shapes; 3808 provider/position pairs under no-op spellings must get the same verdict. Providers include unary plus and neutral arithmetic on constants.',
         note=ISA + '; expected typing = my implementation of README "Types"', ref='6 (C07)'),
     'C11': dict(
         engine='model', technique='runtime comparison of the real parser\'s tree with an independent precedence-climbing parser and a minimal-parentheses printer (round trip)',
         text='Exhaustive over all ordered pairs and triples of the 16 binary operators with unary/is/postfix decorations and parenthesisations; random trees to depth 6 '
-             'printed minimally and with redundant parentheses; parse(print_min(t)) == t.',
+             'printed minimally and with redundant parentheses; parse(print_min(t)) == t. Chains of 10-150 operators of one level and of mixed levels (tree comparison) and 162 long chains compiled and run (values against the documented grouping).',
         note='expected grouping = README "Operators" table; left associativity; ?? and is not chainable', ref='6 (C11)'),
     'C12': dict(
         engine='model', technique='runtime comparison of hidc.lexer.lex output (kinds, values, spans) with generator-built token sequences under layout fuzz and with a hand-written reference tokenizer; end-to-end re-layout of programs',
@@ -86,12 +86,12 @@ CHECKS = {
     'C09': dict(
         engine='svm', technique='runtime monitoring of printed operator results on the SVM against a 40-line table of operator semantics, operands supplied at run time (nothing folded)',
         text='Exhaustive over the stated grid: every binary operator x every ordered pair of grid values x 4 operand type combinations, bool equality, 19 unary/cast forms, '
-             'in value / branch / !truth_is_defeat (try/stop and try/undo) / not / and-or / while positions at word sizes 2,3,4 (quick: 14-value grid, thorough: 32 values). Operands also held in globals, array elements and compile-time constants; literals on either side of every operator; truthiness of arrays (static and run-time length) and of strings of 0..1024 bytes; fault-free grids again under --unchecked.',
+             'in value / branch / !truth_is_defeat (try/stop and try/undo) / not / and-or / while positions at word sizes 2,3,4 (quick: 14-value grid, thorough: 32 values). Operands also held in globals, array elements and compile-time constants; literals on either side of every operator; truthiness of arrays (static and run-time length) and of strings of 0..1024 bytes; fault-free grids again under --unchecked. Run-time bools against the literals true/false with == and != on either side, as value, branch and defeat.',
         note=ISA + '; the semantics table (wrap, signed compare, zero-extension, truncation, truthiness, strict 0/1, floor division)', ref='6 (C09)'),
     'C10': dict(
         engine='svm', technique='runtime monitor M-EXC on exceptions escaping the public API and the command-line tool under hostile inputs; M-ASM on every successful compile; CLI exit/output-file contract',
         text='Exploration: thousands of random texts, token soups, mutations and every-prefix truncations of valid programs, ill-typed mutants, deep nesting <= 40, raw bytes '
-             'through the CLI, and the full option matrix; every outcome was assembly that assembles or a CompilerError whose position lies in the source and renders. Plus the template and idiom corpora of all other checks, unusual-but-legal programs, and 15 byte sequences x 10 places in source files (API and CLI).',
+             'through the CLI, and the full option matrix; every outcome was assembly that assembles or a CompilerError whose position lies in the source and renders. Plus the template and idiom corpora of all other checks, unusual-but-legal programs, and 15 byte sequences x 10 places in source files (API and CLI). A sequence shard compiles an ordered history of programs in one process (user overloads of library names, padded/plain/again, ill-formed ones in between): verdicts are stable and diagnostics stay inside their source.',
         note='the SVM assembler as acceptance test for emitted text; nesting bound 40', ref='6 (C10)'),
     'C13': dict(
         engine='svm', technique='runtime contract M-ESC on the real _escape_bytes (decode(result) == data) + bytes printed/indexed/measured on the SVM vs denoted bytes; M-ASM',
@@ -101,12 +101,12 @@ CHECKS = {
     'C14': dict(
         engine='svm+model', technique='metamorphic runtime monitoring: SVM output of the constant form vs its run-time twin (literals routed through a mutable global); reference interpreter as tie-breaker; known-finding classifier by mechanism',
         text='Exploration: ~1700 (quick) random constant programs per run, each compared with its unfoldable twin at word sizes 2,3,4; rejections are legitimate only with a '
-             'constant zero divisor. An enumerated `forms` shard covers constant indices, computed operands next to array[constant], constant array lengths and whole-program twins of the idiom grids. The recorded finding fold-nowrap (folding on unbounded integers) is reported as KNOWN-FINDING, any other disagreement is a violation.',
+             'constant zero divisor. An enumerated `forms` shard covers constant indices, computed operands next to array[constant], constant array lengths and whole-program twins of the idiom grids. The recorded finding fold-nowrap (folding on unbounded integers) is reported as KNOWN-FINDING, any other disagreement is a violation. The forms shard also has run-time dividends over constant divisors that are zero only on the target, and const locals shadowing const globals (twin + model). The fold-nowrap classifier only claims folded operations and never a trap.',
         note=ISA + '; classifier: exact constant value of a sub-expression leaves the signed word range and the twin agrees with RefInt', ref='6 (C14), 10'),
     'C17': dict(
         engine='svm', technique='runtime monitoring of bytes printed by the write family on the SVM vs canonical text computed by the harness; M-SAN inside the routines; caller state re-printed; tight-stack sweep',
         text='Exhaustive for all 65536 16-bit integers, all 256 bytes, both bools, byte arrays/strings of every length 0..64 in 6 storage forms; boundary (+-40 around every power of '
-             'ten and two) and random values at 24/32/64 bits; caller scalars/arrays around the call at generous and exactly-sufficient stacks. Compile-time constant arguments (also beyond the word); the routines called from inside try bodies that are undone, committed and stopped.',
+             'ten and two) and random values at 24/32/64 bits; caller scalars/arrays around the call at generous and exactly-sufficient stacks. Compile-time constant arguments (also beyond the word); the routines called from inside try bodies that are undone, committed and stopped. Two order programs (a deeper write(int) in an earlier function / earlier in the same function, then an exactly fitting array) are swept around the smallest sufficient stack.',
         note=ISA, ref='6 (C17)'),
 }
 
